@@ -48,19 +48,33 @@ theorem decodeAll_mem {cd : Codec} {r : Res} {k : Key} {ev v : Bytes} (h : (k, e
 theorem mem_orderBy {hint : List Key} {data : Res} {kv : Key × Bytes} : kv ∈ orderBy hint data ↔ kv ∈ data :=
   (List.mergeSort_perm data _).mem_iff
 
-/-- the three facts about one `GetMultiWithError` that everything else rests on. -/
+/-- keys of a result map built by folding `aPut`. -/
+theorem keys_of_foldl_aPut {β : Type} (g : β → Key × Bytes) (l : List β) (acc : Res) (k : Key)
+    (h : k ∈ (l.foldl (fun f x => aPut (g x).1 (g x).2 f) acc).map (·.1)) :
+    k ∈ acc.map (·.1) ∨ ∃ x ∈ l, k = (g x).1 := by
+  obtain ⟨e, he, hk⟩ := List.mem_map.mp h
+  rcases mem_foldl_aPut g l acc e he with h1 | ⟨x, hx, hex⟩
+  · exact Or.inl (List.mem_map.mpr ⟨e, h1, hk⟩)
+  · exact Or.inr ⟨x, hx, by rw [← hk, hex]⟩
+
+/-- the three facts about one `GetMultiWithError` that everything else rests on: the shape is kept;
+whatever is returned is the judge's entry, either held by the in-memory layer within its deadline or
+within its TTL in the backend; and the invariant holds again for every view `f'` that keeps values
+and TTL deadlines, keeps the in-memory deadline of every entry that was not fetched from below, and
+gives every entry fetched from below the deadline `wall + default retention`. -/
 def GetSpec (cd : Codec) (wall : Int) (be : Backend) (ls : List Layer) (f : View) (keys : List Key)
     (r : List Layer × Res × Bool) : Prop :=
   same ls r.1 ∧
-  (∀ kv ∈ r.2.1, kv.1 ∈ keys ∧ ∃ a b, f kv.1 = some (kv.2, a, b) ∧ (be.now < a ∨ (¬ noLru ls ∧ wall < b))) ∧
-  (∀ f', le f f' →
-    (∀ sz d, firstLru ls = some (sz, d) → ∀ k ∈ r.2.1.map (·.1), ∀ v a b, f k = some (v, a, b) → be.now < a →
-      ∃ b', f' k = some (v, a, b') ∧ wall + d ≤ b') →
-    Inv cd wall be r.1 f')
+  (∀ kv ∈ r.2.1, kv.1 ∈ keys ∧ ∃ a b, f kv.1 = some (kv.2, a, b) ∧ ((holds ls kv.1 = true ∧ wall < b) ∨ be.now < a)) ∧
+  (∀ f', sim f f' →
+    (∀ k v a b, f k = some (v, a, b) → (k ∉ r.2.1.map (·.1) ∨ (holds ls k = true ∧ wall < b)) → f' k = some (v, a, b)) →
+    (∀ sz d, firstLru ls = some (sz, d) → ∀ k ∈ r.2.1.map (·.1), ∀ v a b, f k = some (v, a, b) →
+      ¬ (holds ls k = true ∧ wall < b) → f' k = some (v, a, wall + d)) →
+    Inv cd be r.1 f')
 
 theorem getL_spec (cd : Codec) (hcd : ∀ b, cd.dec (cd.enc b) = some b) (wall : Int) (be : Backend) :
     ∀ (ls : List Layer) (f : View) (keys : List Key) (hs : List (List Key)),
-    Inv cd wall be ls f → GetSpec cd wall be ls f keys (getL cd wall ls be keys hs)
+    Inv cd be ls f → GetSpec cd wall be ls f keys (getL cd wall ls be keys hs)
   | [], f, keys, hs, hinv => by
     refine ⟨same_refl _, ?_, ?_⟩
     · intro kv hkv
@@ -68,21 +82,41 @@ theorem getL_spec (cd : Codec) (hcd : ∀ b, cd.dec (cd.enc b) = some b) (wall :
       rcases getMulti_mem be keys [] kv hkv with h | ⟨h1, h2⟩
       · simp at h
       · obtain ⟨it, hg, hl, hd⟩ := live_spec h2
-        obtain ⟨a, b, hf, hle⟩ := hinv _ it hg hl
-        exact ⟨h1, a, b, by rw [← hd]; exact hf, Or.inl (by omega)⟩
-    · intro f' hle _
-      exact Inv_mono cd wall be [] f f' hle hinv
+        obtain ⟨b, hf⟩ := hinv.1 _ it hg
+        exact ⟨h1, it.exp, b, by rw [← hd]; exact hf, Or.inr hl⟩
+    · intro f' hsim _ _
+      exact Inv_sim cd be [] f f' trivial hsim hinv
   | .ver n :: ls, f, keys, hs, hinv => by
     have ih := getL_spec cd hcd wall be ls (tVer n f) (keys.map (addVersion n)) hs.tail hinv
     obtain ⟨ih1, ih2, ih3⟩ := ih
     -- members of the lower result are versioned requested keys
     have hlow : ∀ x ∈ (getL cd wall ls be (keys.map (addVersion n)) hs.tail).2.1,
-        ∃ k0, k0 ∈ keys ∧ x.1 = addVersion n k0 ∧ ∃ a b, f k0 = some (x.2, a, b) ∧ (be.now < a ∨ (¬ noLru ls ∧ wall < b)) := by
+        ∃ k0, k0 ∈ keys ∧ x.1 = addVersion n k0 ∧ ∃ a b, f k0 = some (x.2, a, b) ∧
+          ((holds (.ver n :: ls) k0 = true ∧ wall < b) ∨ be.now < a) := by
       intro x hx
       obtain ⟨hk, a, b, hf, hor⟩ := ih2 x hx
       obtain ⟨k0, hk0, hk1⟩ := List.mem_map.mp hk
-      refine ⟨k0, hk0, hk1.symm, a, b, ?_, hor⟩
-      rw [← hk1, tVer_add] at hf; exact hf
+      refine ⟨k0, hk0, hk1.symm, a, b, ?_, ?_⟩
+      · rw [← hk1, tVer_add] at hf; exact hf
+      · rw [← hk1] at hor; exact hor
+    -- the upper result keys are exactly the lower ones without the prefix
+    have hup : ∀ k0, k0 ∈ (getL cd wall (.ver n :: ls) be keys hs).2.1.map (·.1) ↔
+        addVersion n k0 ∈ (getL cd wall ls be (keys.map (addVersion n)) hs.tail).2.1.map (·.1) := by
+      intro k0
+      constructor
+      · intro h
+        simp only [getL] at h
+        rcases keys_of_foldl_aPut (fun (x : Key × Bytes) => (removeVersion n x.1, x.2)) _ [] k0 h with h1 | ⟨x, hx, he⟩
+        · simp at h1
+        · obtain ⟨k1, _, hk1, _⟩ := hlow x hx
+          simp only [hk1, removeVersion_addVersion] at he
+          subst he
+          exact List.mem_map.mpr ⟨x, hx, hk1⟩
+      · intro h
+        obtain ⟨x, hx, hxk⟩ := List.mem_map.mp h
+        simp only [getL]
+        apply keys_foldl_aPut (fun (x : Key × Bytes) => (removeVersion n x.1, x.2))
+        exact Or.inr ⟨x, hx, by simp [hxk, removeVersion_addVersion]⟩
     refine ⟨same_cons rfl ih1, ?_, ?_⟩
     · intro kv hkv
       simp only [getL] at hkv
@@ -92,22 +126,46 @@ theorem getL_spec (cd : Codec) (hcd : ∀ b, cd.dec (cd.enc b) = some b) (wall :
         subst he
         simp only [hk1, removeVersion_addVersion]
         exact ⟨hk0, a, b, hf, hor⟩
-    · intro f' hle hb
-      simp only [getL]
-      apply ih3 (tVer n f') (le_tVer n hle)
-      intro sz d hfl k hk v a b hfk hlt
-      obtain ⟨x, hx, hxk⟩ := List.mem_map.mp hk
-      obtain ⟨k0, _, hk1, _⟩ := hlow x hx
-      have hkk : k = addVersion n k0 := by rw [← hxk, hk1]
-      subst hkk
-      rw [tVer_add] at hfk ⊢
-      apply hb sz d (by simpa [firstLru] using hfl) k0 _ v a b hfk hlt
-      simp only [getL]
-      apply keys_foldl_aPut (fun (x : Key × Bytes) => (removeVersion n x.1, x.2))
-      exact Or.inr ⟨x, hx, by simp [hk1, removeVersion_addVersion]⟩
+    · intro f' hsim hkeep hfill
+      have hgoal : Inv cd be (getL cd wall ls be (keys.map (addVersion n)) hs.tail).1 (tVer n f') := by
+        apply ih3 (tVer n f') (sim_tVer n hsim)
+        · intro k' v a b hfk hc
+          obtain ⟨k0, rfl, hf0⟩ := tVer_some hfk
+          rw [tVer_add]
+          apply hkeep k0 v a b hf0
+          rcases hc with hc | hc
+          · left; intro hm; exact hc ((hup k0).mp hm)
+          · right; exact hc
+        · intro sz d hfl k' hk' v a b hfk hns
+          obtain ⟨k0, rfl, hf0⟩ := tVer_some hfk
+          rw [tVer_add]
+          exact hfill sz d (by simpa [firstLru] using hfl) k0 ((hup k0).mpr hk') v a b hf0 hns
+      simpa only [getL, Inv] using hgoal
   | .snap :: ls, f, keys, hs, hinv => by
     have ih := getL_spec cd hcd wall be ls (tSnap cd f) keys hs.tail hinv
     obtain ⟨ih1, ih2, ih3⟩ := ih
+    -- a key is in the upper result exactly when it is in the lower one and the judge knows it
+    have hupOf : ∀ k, k ∈ (getL cd wall (.snap :: ls) be keys hs).2.1.map (·.1) →
+        k ∈ (getL cd wall ls be keys hs.tail).2.1.map (·.1) := by
+      intro k h
+      obtain ⟨e, he, hk⟩ := List.mem_map.mp h
+      simp only [getL] at he
+      obtain ⟨ev, hev, _⟩ := mem_decodeAll he
+      exact List.mem_map.mpr ⟨(e.1, ev), hev, hk⟩
+    have hupTo : ∀ k v a b, f k = some (v, a, b) → k ∈ (getL cd wall ls be keys hs.tail).2.1.map (·.1) →
+        k ∈ (getL cd wall (.snap :: ls) be keys hs).2.1.map (·.1) := by
+      intro k v a b hfv hk
+      obtain ⟨x, hx, hxk⟩ := List.mem_map.mp hk
+      obtain ⟨_, a', b', hf2, _⟩ := ih2 x hx
+      rw [hxk, tSnap_of hfv] at hf2
+      have hxe : x.2 = cd.enc v := by
+        simp only [Option.some.injEq, Prod.mk.injEq] at hf2; exact hf2.1.symm
+      have hmem : (k, v) ∈ decodeAll cd (getL cd wall ls be keys hs.tail).2.1 := by
+        apply decodeAll_mem (ev := cd.enc v)
+        · rw [← hxe, ← hxk]; exact hx
+        · exact hcd v
+      simp only [getL]
+      exact List.mem_map.mpr ⟨(k, v), hmem, rfl⟩
     refine ⟨same_cons rfl ih1, ?_, ?_⟩
     · intro kv hkv
       simp only [getL] at hkv
@@ -120,50 +178,77 @@ theorem getL_spec (cd : Codec) (hcd : ∀ b, cd.dec (cd.enc b) = some b) (wall :
         rw [henc, hdec] at this
         simpa using this
       exact ⟨hk, a, b, by rw [this]; exact hfv, hor⟩
-    · intro f' hle hb
-      simp only [getL]
-      apply ih3 (tSnap cd f') (le_tSnap cd hle)
-      intro sz d hfl k hk ev a b hfk hlt
-      obtain ⟨x, hx, hxk⟩ := List.mem_map.mp hk
-      obtain ⟨_, a', b', hf2, _⟩ := ih2 x hx
-      rw [hxk, hfk] at hf2
-      obtain ⟨v, hfv, henc⟩ := tSnap_some hfk
-      have hxe : x.2 = ev := by
-        simp only [Option.some.injEq, Prod.mk.injEq] at hf2; exact hf2.1.symm
-      have hmem : (k, v) ∈ decodeAll cd (getL cd wall ls be keys hs.tail).2.1 := by
-        apply decodeAll_mem (ev := ev)
-        · rw [← hxe, ← hxk]; exact hx
-        · rw [← henc]; exact hcd v
-      obtain ⟨b'', h1, h2⟩ := hb sz d (by simpa [firstLru] using hfl) k
-        (by simp only [getL]; exact List.mem_map.mpr ⟨(k, v), hmem, rfl⟩) v a b hfv hlt
-      exact ⟨b'', by rw [← henc]; exact tSnap_of h1, h2⟩
+    · intro f' hsim hkeep hfill
+      have hgoal : Inv cd be (getL cd wall ls be keys hs.tail).1 (tSnap cd f') := by
+        apply ih3 (tSnap cd f') (sim_tSnap cd hsim)
+        · intro k ev a b hfk hc
+          obtain ⟨v, hfv, henc⟩ := tSnap_some hfk
+          rw [← henc]
+          apply tSnap_of
+          apply hkeep k v a b hfv
+          rcases hc with hc | hc
+          · left; intro hm; exact hc (hupOf k hm)
+          · right; exact hc
+        · intro sz d hfl k hk ev a b hfk hns
+          obtain ⟨v, hfv, henc⟩ := tSnap_some hfk
+          rw [← henc]
+          apply tSnap_of
+          exact hfill sz d (by simpa [firstLru] using hfl) k (hupTo k v a b hfv hk) v a b hfv hns
+      simpa only [getL, Inv] using hgoal
   | .lru sz d e :: ls, f, keys, hs, hinv => by
     obtain ⟨hE, hinv0, hno⟩ := hinv
     have hsc := lruScan_spec wall e keys ⟨e, [], []⟩ (fun _ _ h => h) (by simp)
     have hsk := lruScan_found_keys wall keys ⟨e, [], []⟩ keys (by simp) (by simp) (fun _ h => h)
+    have hmiss := lruScan_miss wall e keys ⟨e, [], []⟩ (fun _ _ h => h) (fun k h => Or.inl h) (by simp)
+    have hlive := lruScan_live wall keys ⟨e, [], []⟩ [] (by simp)
     obtain ⟨hs1, hs2⟩ := hsc
     obtain ⟨hk1, hk2⟩ := hsk
+    have hholds : ∀ k, holds (.lru sz d e :: ls) k = true ↔ ∃ it, aGet k e = some it := fun k => mem_keys_iff
     -- a hit is a live local entry
     have hfound : ∀ kv ∈ (lruScan wall keys ⟨e, [], []⟩).found,
-        kv.1 ∈ keys ∧ ∃ a b, f kv.1 = some (kv.2, a, b) ∧ (be.now < a ∨ (¬ noLru (.lru sz d e :: ls) ∧ wall < b)) := by
+        kv.1 ∈ keys ∧ ∃ a b, f kv.1 = some (kv.2, a, b) ∧
+          ((holds (.lru sz d e :: ls) kv.1 = true ∧ wall < b) ∨ be.now < a) := by
       intro kv hkv
       obtain ⟨it, hg, hl, hd⟩ := hs2 kv hkv
-      obtain ⟨a, b, hf, hle⟩ := hE _ it hg hl
-      exact ⟨hk1 kv hkv, a, b, by rw [← hd]; exact hf, Or.inr ⟨by simp [noLru], by omega⟩⟩
-    have hold : ∀ f', le f f' → ∀ k it, aGet k (lruScan wall keys ⟨e, [], []⟩).ents = some it → wall < it.exp →
-        ∃ a b, f' k = some (it.data, a, b) ∧ it.exp ≤ b := by
-      intro f' hle k it hg hl
-      obtain ⟨a, b, hf, hle2⟩ := hE k it (hs1 k it hg) hl
-      obtain ⟨b', h1, h2⟩ := hle k _ a b hf
-      exact ⟨a, b', h1, by omega⟩
+      obtain ⟨a, hf⟩ := hE _ it hg
+      exact ⟨hk1 kv hkv, a, it.exp, by rw [← hd]; exact hf, Or.inl ⟨(hholds _).mpr ⟨it, hg⟩, hl⟩⟩
+    -- a missing key is not held within its deadline
+    have hgone : ∀ k ∈ (lruScan wall keys ⟨e, [], []⟩).miss, ∀ v a b, f k = some (v, a, b) →
+        ¬ (holds (.lru sz d e :: ls) k = true ∧ wall < b) := by
+      intro k hk v a b hf ⟨hh, hlt⟩
+      obtain ⟨it, hit⟩ := (hholds k).mp hh
+      rcases hmiss k hk with h | ⟨it', hit', hexp⟩
+      · rw [hit] at h; simp at h
+      · rw [hit] at hit'
+        simp only [Option.some.injEq] at hit'
+        subst hit'
+        obtain ⟨a', hf'⟩ := hE k it hit
+        rw [hf] at hf'
+        simp only [Option.some.injEq, Prod.mk.injEq] at hf'
+        omega
+    -- an old entry that survives keeps its deadline in every admissible view
+    have hold : ∀ (R : List Key) (f' : View), (∀ k ∈ R, k ∈ keys) →
+        (∀ k v a b, f k = some (v, a, b) → (k ∉ R ∨ (holds (.lru sz d e :: ls) k = true ∧ wall < b)) → f' k = some (v, a, b)) →
+        ∀ k it, aGet k (lruScan wall keys ⟨e, [], []⟩).ents = some it → ∃ a, f' k = some (it.data, a, it.exp) := by
+      intro R f' hR hkeep k it hg
+      have hg0 := hs1 k it hg
+      obtain ⟨a, hf⟩ := hE k it hg0
+      refine ⟨a, hkeep k _ a _ hf ?_⟩
+      by_cases hkR : k ∈ R
+      · right
+        exact ⟨(hholds k).mpr ⟨it, hg0⟩, hlive k (Or.inr (hR k hkR)) it hg⟩
+      · left; exact hkR
     by_cases hm : (lruScan wall keys ⟨e, [], []⟩).miss.isEmpty = true
     · have hr : getL cd wall (.lru sz d e :: ls) be keys hs =
           (.lru sz d (lruScan wall keys ⟨e, [], []⟩).ents :: ls, (lruScan wall keys ⟨e, [], []⟩).found, false) := by
         simp only [getL, hm, if_true]
       rw [hr]
       refine ⟨same_cons rfl (same_refl _), hfound, ?_⟩
-      intro f' hle _
-      exact ⟨hold f' hle, Inv_mono cd wall be ls f f' hle hinv0, hno⟩
+      intro f' hsim hkeep _
+      refine ⟨hold _ f' ?_ hkeep, Inv_sim cd be ls f f' hno hsim hinv0, hno⟩
+      intro k hk
+      obtain ⟨x, hx, hxk⟩ := List.mem_map.mp hk
+      rw [← hxk]; exact hk1 x hx
     · have hr : getL cd wall (.lru sz d e :: ls) be keys hs =
           (.lru sz d (lruAddAll sz (wall + d) (orderBy (hs.headD []) (getL cd wall ls be (lruScan wall keys ⟨e, [], []⟩).miss hs.tail).2.1)
               (lruScan wall keys ⟨e, [], []⟩).ents) :: (getL cd wall ls be (lruScan wall keys ⟨e, [], []⟩).miss hs.tail).1,
@@ -174,38 +259,48 @@ theorem getL_spec (cd : Codec) (hcd : ∀ b, cd.dec (cd.enc b) = some b) (wall :
         rfl
       rw [hr]
       have ih := getL_spec cd hcd wall be ls f (lruScan wall keys ⟨e, [], []⟩).miss hs.tail hinv0
-      obtain ⟨ih1, ih2, ih3⟩ := ih
-      -- what came from below is live in the backend
+      obtain ⟨ih1, ih2, _⟩ := ih
+      -- what came from below was missing locally and is live in the backend
       have hbelow : ∀ x ∈ orderBy (hs.headD []) (getL cd wall ls be (lruScan wall keys ⟨e, [], []⟩).miss hs.tail).2.1,
-          x.1 ∈ keys ∧ ∃ a b, f x.1 = some (x.2, a, b) ∧ be.now < a := by
+          x.1 ∈ (lruScan wall keys ⟨e, [], []⟩).miss ∧ ∃ a b, f x.1 = some (x.2, a, b) ∧ be.now < a := by
         intro x hx
         obtain ⟨hk, a, b, hf, hor⟩ := ih2 x (mem_orderBy.mp hx)
-        refine ⟨hk2 _ hk, a, b, hf, ?_⟩
+        refine ⟨hk, a, b, hf, ?_⟩
         rcases hor with h | h
+        · rw [holds_noLru _ hno] at h; simp at h
         · exact h
-        · exact absurd hno h.1
+      have hRkeys : ∀ k ∈ ((orderBy (hs.headD []) (getL cd wall ls be (lruScan wall keys ⟨e, [], []⟩).miss hs.tail).2.1).foldl
+          (fun f kv => aPut kv.1 kv.2 f) (lruScan wall keys ⟨e, [], []⟩).found).map (·.1), k ∈ keys := by
+        intro k hk
+        rcases keys_of_foldl_aPut (fun (x : Key × Bytes) => x) _ _ k hk with h | ⟨x, hx, he⟩
+        · obtain ⟨y, hy, hyk⟩ := List.mem_map.mp h
+          rw [← hyk]; exact hk1 y hy
+        · rw [he]; exact hk2 _ (hbelow x hx).1
       refine ⟨same_cons rfl ih1, ?_, ?_⟩
       · intro kv hkv
         rcases mem_foldl_aPut (fun (x : Key × Bytes) => x) _ _ kv hkv with h | ⟨x, hx, he⟩
         · exact hfound kv h
         · subst he
           obtain ⟨hk, a, b, hf, hlt⟩ := hbelow kv hx
-          exact ⟨hk, a, b, hf, Or.inl hlt⟩
-      · intro f' hle hb
-        refine ⟨?_, ?_, same_noLru ih1 hno⟩
-        · intro k it hg hl
+          exact ⟨hk2 _ hk, a, b, hf, Or.inr hlt⟩
+      · intro f' hsim hkeep hfill
+        refine ⟨?_, Inv_sim cd be _ f f' (same_noLru ih1 hno) hsim ?_, same_noLru ih1 hno⟩
+        · intro k it hg
           rcases aGet_lruAddAll sz (wall + d) _ _ k it hg with ⟨v, hit, hmem⟩ | ⟨hg2, _⟩
-          · obtain ⟨_, a, b, hf, hlt⟩ := hbelow (k, v) hmem
+          · obtain ⟨hkm, a, b, hf, _⟩ := hbelow (k, v) hmem
             have hkeys : k ∈ ((orderBy (hs.headD []) (getL cd wall ls be (lruScan wall keys ⟨e, [], []⟩).miss hs.tail).2.1).foldl
                 (fun f kv => aPut kv.1 kv.2 f) (lruScan wall keys ⟨e, [], []⟩).found).map (·.1) :=
               keys_foldl_aPut (fun (x : Key × Bytes) => x) _ _ k (Or.inr ⟨(k, v), hmem, rfl⟩)
-            obtain ⟨b', h1, h2⟩ := hb sz d rfl k hkeys v a b hf hlt
+            have := hfill sz d rfl k hkeys v a b hf (hgone k hkm v a b hf)
             subst hit
-            exact ⟨a, b', h1, h2⟩
-          · exact hold f' hle k it hg2 hl
-        · apply ih3 f' hle
-          intro sz' d' hfl
-          rw [noLru_firstLru hno] at hfl
-          simp at hfl
+            exact ⟨a, this⟩
+          · exact hold _ f' hRkeys hkeep k it hg2
+        · -- the lower layers only changed their in-memory part (there is none)
+          obtain ⟨_, _, ih3⟩ := getL_spec cd hcd wall be ls f (lruScan wall keys ⟨e, [], []⟩).miss hs.tail hinv0
+          apply ih3 f (sim_refl f)
+          · intro k v a b hf _; exact hf
+          · intro sz' d' hfl
+            rw [noLru_firstLru hno] at hfl
+            simp at hfl
 
 end PfC19
